@@ -47,6 +47,10 @@ func (f *PrincToString) Call(s *slip.Scope, args slip.List, depth int) (result s
 	p.Readably = false
 
 	obj := args[0]
+	if ss, ok := obj.(slip.String); ok {
+		// princ writes the characters of a string without the quotes
+		return ss
+	}
 	var b []byte
 	if sa, ok := obj.(slip.ScopedAppender); ok {
 		b = sa.ScopedAppend(b, s, &p, 0)
